@@ -22,19 +22,20 @@ LEVEL_TEXT = ("Theorems over heaps of any size and shape (cyclic, dangling, self
               "passed-through flags): the nested recursion resolve_target -> _resolve_target -> get_member -> Alias.members -> final_target "
               "-> target -> resolve_target, the tree recursion of resolve_module_aliases and the resolve_aliases while-loop all return "
               "with fuel #aliases+1 / 2#aliases+3 / #nodes+1 / #aliases+2; every outcome is success, AliasResolutionError or "
-              "CyclicAliasError; flags are restored and stored links never change. All-or-nothing is refuted on the faithful model "
-              "(two witnesses replayed on the implementation) and proved modulo the two decidable gap predicates; the fixpoint is "
-              "refuted for the return value and proved in conditional form. The model is tied to the code by abstracting the loaded "
-              "tree of every generated package set into a heap term and comparing, operation by operation, unresolved sets, iteration "
-              "counts, per-alias links, flags and dereference outcomes (incl. which alias an AliasResolutionError names).")
+              "CyclicAliasError; flags are restored, stored links never change, a failed resolve_target leaves the alias unlinked and "
+              "every stored link keeps leading to an object (all-or-nothing, for all heaps, modulo the one decidable gap predicate "
+              "targets_complete = false that wildcard expansion can produce). The fixpoint is proved in conditional form. The model is "
+              "tied to the code by abstracting the loaded tree of every generated package set into a heap term and comparing, operation "
+              "by operation, unresolved sets, iteration counts, per-alias links, flags and dereference outcomes (incl. which alias an "
+              "AliasResolutionError names).")
 LEVEL_NOTE = ("Modelled and verified: dereferencing/resolution (models.py Alias.*, mixins.py get_member) and resolve_module_aliases / "
-              "resolve_aliases with implicit=True, external=False. NOT modelled: load(), expand_exports, expand_wildcards (their escapes "
-              "and the None>int TypeError are evaluated directly on the implementation and attributed to known findings C06-F1/F2 by "
-              "exception type + raising site + graph predicate); the heap handed to the model is abstracted after wildcard expansion has "
-              "stabilised. C06_fixpoint_partial is partial (conditional on a quiet pass; the unconditional statement modulo the known gaps "
-              "is not proved, only checked at run time on every explored heap). Side-loading during resolution (external != False) is outside the "
-              "model: the fixpoint is evaluated directly there (known finding C06-F5, attributed from a trace of the loop). Trusted: Coq kernel, extraction, the tree->heap abstraction "
-              "(Snapshot) and the comparison code in this module.")
+              "resolve_aliases with implicit=True, external=False, as repaired by the fix commits for C06-F1, F2, F4, F5. NOT modelled: "
+              "load(), expand_exports, expand_wildcards (any exception leaving them is a violation; the heap handed to the model is "
+              "abstracted after wildcard expansion has stabilised, graphs where it does not are only evaluated directly) and side-loading "
+              "during resolution (external != False: the fixpoint is evaluated directly on the implementation there). C06_fixpoint_partial "
+              "is partial (conditional on a quiet pass; the unconditional statement is checked at run time on every explored heap, model "
+              "and implementation). Known: C06-F3 (wildcard-expanded aliases are created resolved onto chains that may dangle). Trusted: "
+              "Coq kernel, extraction, the tree->heap abstraction (Snapshot) and the comparison code in this module.")
 MODEL = ("Model.C06_alias", "run_C06")
 COQ_TARGETS = ["Proofs/C06_alias.vo"]
 RULE = ("import graphs written as packages under the scratch directory and loaded with GriffeLoader(allow_inspection=False): "
@@ -52,7 +53,7 @@ RULE = ("import graphs written as packages under the scratch directory and loade
         "distinct by canonical case value")
 TRUSTED = ["abstraction: Snapshot walks collection.members / Object.members and reads Alias._target, target_path, _passed_through, name; "
            "aliases manufactured by Alias.members are encoded as (path, member) references",
-           "known-finding attribution of C06-F3/F4 is cross-checked against the extracted model's direct / chains_complete / unique_paths verdicts"]
+           "known-finding attribution of C06-F3 is cross-checked against the extracted model's targets_complete / unique_paths verdicts"]
 ASSUMPTIONS = ["packages are static source trees with __init__.py (no namespace packages, stubs or inspection)",
                "model correspondence uses resolve_aliases(implicit=True, external=False); external=True/None only in the implementation-only side-loading stream"]
 
@@ -380,47 +381,6 @@ def graph_features(files):
 # --------------------------------------------------------------------------------------------------------------------
 # direct evaluation of the property on the implementation + attribution to known findings
 # --------------------------------------------------------------------------------------------------------------------
-ALIAS_ERRORS = ("AliasResolutionError", "CyclicAliasError")
-DEREF_FRAMES = {"final_target", "target", "resolve_target", "_resolve_target", "members", "get_member", "aliases",
-                "_update_target_aliases", "__init__"}
-NONE_GT_INT = "'>' not supported between instances of 'NoneType' and 'int'"
-
-
-def classify_escape(files, fail):
-    """An exception left load()/expand_wildcards()/resolve_aliases(). Known finding id or None (= new violation)."""
-    if fail[0] != "raise":
-        return None                                   # watchdog / RecursionError are never known
-    etype, frames, through_protected = fail[1]
-    feats = graph_features(files)
-    if not feats["has_wildcard"] or "expand_wildcards" not in frames:
-        return None
-    k = len(frames) - 1 - frames[::-1].index("expand_wildcards")
-    inner = frames[k + 1:]                            # frames below the innermost expand_wildcards
-    if etype in ALIAS_ERRORS and not through_protected and inner and set(inner) <= DEREF_FRAMES | {"_expand_wildcard", "set_member"}:
-        return "C06-F1"
-    if etype == "TypeError" and not inner and NONE_GT_INT in fail[2]:
-        return "C06-F2"
-    return None
-
-
-def escape_confirmation(rec):
-    """A known escape names an alias (AliasResolutionError.alias / first path of CyclicAliasError.chain): if that alias
-    is in the tree, the model must agree that dereferencing it fails on the heap as it is. Returns (heap term, index)."""
-    snap, named = rec.get("esc_snap"), rec["fail"][3]
-    if snap is None or named is None:
-        return None
-    if isinstance(named, list):
-        hits = [i for i in snap.alias_ids() if named and snap.nodes[i][1] == named[0]]
-        if not hits:
-            return None
-        i = hits[0]                                     # members of the tree are numbered before detached aliases
-    else:
-        i = snap.ids.get(id(named))
-        if i is None:
-            return None
-    return (snap.term(), snap.alias_ids().index(i))
-
-
 def stored_chain(snap, i):
     """Follow the stored links from alias node i on the live objects: (ids of real aliases met, saw a virtual link)."""
     seen, virt = [], False
@@ -442,12 +402,12 @@ def stored_chain(snap, i):
 
 
 def classify_partial(snap, i):
-    """Alias i has a stored link yet dereferencing it raises (dangling or cyclic chain). Known finding id or None."""
-    chain, virt = stored_chain(snap, i)
-    if virt:
-        return "C06-F4"                               # a link manufactured while walking through an alias member
+    """Alias i has a stored link yet dereferencing it raises (dangling or cyclic chain). Known finding id or None.
+    Only links that wildcard expansion stored before any resolution are known (C06-F3); resolve_target never stores
+    a link onto a chain that does not reach an object (C06_all_or_nothing_modulo_known)."""
+    chain, _virt = stored_chain(snap, i)
     if any(snap.nodes[k][3] for k in chain):
-        return "C06-F3"                               # a link that was stored before any resolution (wildcard expansion)
+        return "C06-F3"
     return None
 
 
@@ -472,13 +432,9 @@ def evaluate(ctx, files, loads, rec, case):
         f = rec["fail"]
         kind = f[0] if f[0] != "raise" else f[1][0]
         ctx.observe("escape", f"{rec['stage'].split(':')[0]}:{kind}")
-        fid = classify_escape(files, f)
         detail = {"stage": rec["stage"], "outcome": f[0], "exception": f[1] if f[0] == "raise" else None,
                   "message": f[2] if f[0] == "raise" else None}
-        ctx.property_failure(case, detail, finding=fid)
-        if fid == "C06-F1":
-            rec["confirm"] = escape_confirmation(rec)
-            ctx.observe("escape_confirmation", "queued" if rec["confirm"] else "alias-not-in-tree")
+        ctx.property_failure(case, detail, finding=None)     # nothing may leave load() / resolve_aliases() / a dereference
         return False
     snap, obs, states = rec["snap"], rec["obs"][-4:], rec["states"][-5:]   # the trailing resolve, resolve, deref, resolve
     ids = snap.alias_ids()
@@ -505,19 +461,10 @@ def evaluate(ctx, files, loads, rec, case):
     u1, u2, u3 = obs[0][1], obs[1][1], obs[3][1]
     if states[1] != states[2]:
         changed = [b[0] for a, b in zip(states[1], states[2]) if a != b]
-        fids = {partial.get(p, "not-partial") for p in changed}
-        fid = sorted(fids)[0] if (fids and None not in fids and "not-partial" not in fids) else None
-        ctx.observe("fixpoint_links", fid or "unclassified")
         ctx.property_failure(case, {"fixpoint": "second resolve_aliases changed links", "changed": changed,
-                                    "first": states[1], "second": states[2]}, finding=fid)
+                                    "first": states[1], "second": states[2]}, finding=None)
     if u1 != u2:
-        extra = set(u1) - set(u2)
-        fids = {partial.get(p, "not-partial") for p in extra}
-        fid = None
-        if set(u2) <= set(u1) and fids and None not in fids and "not-partial" not in fids:
-            fid = sorted(fids)[0]                      # the first call reported resolved-but-dangling aliases as unresolved
-        ctx.observe("fixpoint_return", fid or "unclassified")
-        ctx.property_failure(case, {"fixpoint": "return value", "first": u1, "second": u2}, finding=fid)
+        ctx.property_failure(case, {"fixpoint": "return value", "first": u1, "second": u2}, finding=None)
     if obs[1][2] > 2:
         ctx.property_failure(case, {"fixpoint": "second call needed more than 2 iterations", "iterations": obs[1][2]}, finding=None)
     ctx.observe("iterations_first", obs[0][2])
@@ -551,7 +498,6 @@ def run_batch(ctx, batch, label, use_model=True):
     """batch: list of (files, loads, interleave). Implementation first, then one model call for the whole batch."""
     root = str(ctx.scratch / "pk")
     live = []
-    confirm = []
     for k, (files, loads, interleave) in enumerate(batch):
         if len(ctx.prop_failures) >= 20:
             break                                        # enough new violations to report; do not burn watchdog time
@@ -567,21 +513,11 @@ def run_batch(ctx, batch, label, use_model=True):
         ctx.observe("wildcards", min(len(feats["wildcards"]), 4))
         ok = evaluate(ctx, files, loads, rec, case)
         if not ok:
-            if rec.get("confirm"):
-                confirm.append((case, rec))
             continue
         if rec["pre_unstable"] or not rec["post_structure_same"]:
             ctx.count("not_abstractable")               # the tree kept changing under repeated wildcard expansion
             continue
         live.append((case, rec))
-    if use_model and confirm:
-        outs = ctx.model([["run", r["confirm"][0][0], r["confirm"][0][1], ["deref"]] for _, r in confirm])
-        for (case, rec), mo in zip(confirm, outs):
-            d = mo[2][1][rec["confirm"][1]] if (mo and mo[0] != "bad-input" and len(mo) > 2 and mo[2][0] == "deref") else None
-            ctx.observe("escape_confirmed_by_model", str(d[0]) if d else "no-verdict")
-            if d is not None and d[0] == "ok":
-                ctx.property_failure(case, {"escape": rec["fail"][1], "named_alias_dereferences_in_model_to": d,
-                                            "meaning": "the escaping alias error is spurious: the alias it names resolves"}, finding=None)
     if not use_model or not live:
         return
     outs = ctx.model([["run", r["heap"][0], r["heap"][1], r["ops"]] for _, r in live])
@@ -590,7 +526,7 @@ def run_batch(ctx, batch, label, use_model=True):
             ctx.tie_failure("correspondence", "model rejected the heap term", {"model": mo}, case)
             continue
         cls = mo[0][1:]
-        ctx.observe("heap_class(wf,noflag,direct,complete,unique)", "".join(str(c) for c in cls))
+        ctx.observe("heap_class(wf,noflag,direct,complete,unique,targets_complete)", "".join(str(c) for c in cls))
         if cls[0] != 1 or cls[1] != 1:
             ctx.tie_failure("correspondence", "abstracted heap is not well-formed (wf / no flag raised)", {"class": cls}, case)
             continue
@@ -600,8 +536,9 @@ def run_batch(ctx, batch, label, use_model=True):
         # the Python attribution must agree with the Coq gap predicates: C06_all_or_nothing_modulo_known excludes any
         # dangling stored link on a heap that is direct, complete and has unique paths
         att = rec.get("attributed", [])
-        if ("C06-F4" in att and cls[2] == 1) or ("C06-F3" in att and cls[3] == 1) or (att and cls[2:] == [1, 1, 1]):
-            ctx.property_failure(case, {"partial_chain_outside_known_gaps": att, "model_gap_predicates(direct,complete,unique)": cls[2:]}, finding=None)
+        if att and cls[5] == 1 and cls[4] == 1:
+            ctx.property_failure(case, {"partial_chain_outside_known_gap": att,
+                                        "model_gap_predicates(direct,complete,unique,targets_complete)": cls[2:]}, finding=None)
         exp, got = expected_trace(rec), normalise_model(mo)
         if exp != got:
             first = next(((a, b) for a, b in zip(exp, got) if a != b), (exp[len(got):][:1], got[len(exp):][:1]))
@@ -721,16 +658,11 @@ def run_external(ctx, files, loads, external, label):
     ctx.observe("side_loaded_packages", len(calls[0][3]) - len(loads))
     if calls[0][0] != calls[1][0] or calls[0][2] != calls[1][2] or calls[0][3] != calls[1][3] or calls[1][1] > 2:
         changed = [b[0] for a, b in zip(calls[0][2], calls[1][2]) if a != b]
-        # known finding C06-F5, exactly: the last iteration of the first call still made progress (side-loaded a package or
-        # resolved an alias) but produced the same unresolved set as the one before, so the loop stopped
         starts = [n for n, ev in enumerate(first_trace) if ev[0] == "S" and ev[1] == loads[0]]
         last = first_trace[starts[-1]:] if starts else []
-        progress = any(ev[0] == "L" for ev in last) or sum(ev[2] for ev in last if ev[0] == "V") > 0
-        fid = "C06-F5" if (progress and len(starts) == calls[0][1] and len(calls[0][3]) > len(loads)) else None
-        ctx.observe("side_loading_fixpoint", fid or "unclassified")
         fail("second resolve_aliases is not a no-op", {"first": calls[0][:2], "second": calls[1][:2], "links_changed": changed,
                                                         "collection": [calls[0][3], calls[1][3]],
-                                                        "last_iteration_of_first_call": last}, finding=fid)
+                                                        "last_iteration_of_first_call": last}, finding=None)
     elif unreached:
         fail("aliases left unresolved after two calls although they resolve", {"aliases": unreached})
     if any(p for st in (calls[0][2], calls[1][2], calls[2][2]) for _, _, p in st):
@@ -742,39 +674,20 @@ def run_external(ctx, files, loads, external, label):
 # --------------------------------------------------------------------------------------------------------------------
 # known-finding witnesses (replayed on the implementation on every run)
 # --------------------------------------------------------------------------------------------------------------------
-WITNESSES = {
-    "C06-F1": {"p": "from p.x import *\nfrom p import x\n"},
-    "C06-F2": None,   # filled from findings/C06.json
-    "C06-F3": {"p": "from p.a import *\n", "p.a": "from p.zz import x\n"},
-    "C06-F4": {"p": "import p.b as m\n", "p.b": "from p.zz import x\n", "p.a": "from p.m import x\n"},
-}
-
-
 def replay_witnesses(ctx):
+    """The witness of the remaining known finding (C06-F3) must still reproduce on the implementation."""
     root = str(ctx.scratch / "wit")
     for fid, f in ctx.known.items():
-        files = f.get("witness", {}).get("files") or WITNESSES.get(fid)
+        files = f.get("witness", {}).get("files")
         if not files:
             continue
-        if fid == "C06-F5":
-            import griffe
-            write_packages(files, root)
-            loader = griffe.GriffeLoader(search_paths=[root], allow_inspection=False)
-            w = f["witness"]
-            r = guarded(lambda: [loader.load(pk, try_relative_path=False) for pk in w["loads"]] and
-                        [loader.resolve_aliases(implicit=True, external=w["external"])[0] for _ in range(2)])
-            ctx.witness(fid, r[0] == "ok" and r[1][0] != r[1][1])
-            continue
         rec = run_impl(files, f.get("witness", {}).get("loads", ["p"]), root)
-        if fid in ("C06-F1", "C06-F2"):
-            ok = rec["stage"] is not None and classify_escape(files, rec["fail"]) == fid
-        else:
-            ok = False
-            if rec["stage"] is None:
-                snap = rec["snap"]
-                for i, (path, tgt, _), d in zip(snap.alias_ids(), rec["states"][2], rec["obs"][2][1]):
-                    if tgt and d[0] in ("are", "cyc") and classify_partial(snap, i) == fid:
-                        ok = True
+        ok = False
+        if rec["stage"] is None:
+            snap = rec["snap"]
+            for i, (path, tgt, _), d in zip(snap.alias_ids(), rec["states"][2], rec["obs"][2][1]):
+                if tgt and d[0] in ("are", "cyc") and classify_partial(snap, i) == fid:
+                    ok = True
         ctx.witness(fid, ok)
 
 
@@ -785,7 +698,10 @@ def replay_corpus(ctx):
     batch = []
     for f in sorted(d.glob("*.json")):
         c = json.loads(f.read_text())
-        batch.append((c["files"], c.get("loads", ["p"]), bool(c.get("interleave", False))))
+        if "external" in c:
+            run_external(ctx, c["files"], c["loads"], c["external"], "corpus(side-loading)")
+        else:
+            batch.append((c["files"], c.get("loads", ["p"]), bool(c.get("interleave", False))))
     run_batch(ctx, batch, "corpus")
 
 
